@@ -45,7 +45,11 @@ class PureFunction(object):
         return self._cur_objparams
 
     def set_objparams(self, objparams: List):
-        # TODO: check if identical with current object parameters
+        if len(self._restore_stack) == 0:
+            # the owner of the object may have given it other tensors since this
+            # wrapper was created or last used: compare with (and later restore)
+            # what the object holds now, not what it held then
+            self._cur_objparams = self._uniq.get_unique_objs(self._get_all_obj_params_init())
         identical = _check_identical_objs(objparams, self._cur_objparams)
         self._restore_stack.append((self._cur_objparams, identical))
         if not identical:
